@@ -253,6 +253,9 @@ pub struct Local {
     /// set by families whose inputs are huge shared buffers: the case identity to use instead of
     /// hashing the whole input
     pub input_hash_override: Option<u64>,
+    /// set by a judge whose violation was already confirmed by its own repeated execution (C12's
+    /// hang detection re-runs the load alone): the runner then does not execute the case again
+    pub already_confirmed: bool,
 }
 impl Local {
     #[inline]
@@ -269,6 +272,7 @@ impl Local {
             distinct: false,
             nontrivial_direct: 0,
             input_hash_override: None,
+            already_confirmed: false,
             evals: 0,
             transitions: 0,
             traces: 0,
@@ -746,7 +750,8 @@ impl Ctx {
                             // before a violation is trusted the case is executed twice more: the same
                             // case must fail the same way every time (a divergence means nondeterminism
                             // the harness does not own, or a subject whose verdict depends on history)
-                            if loc.viol_count > before && loc.violations.len() > recorded && confirmations < 8 {
+                            let skip_probe = std::mem::take(&mut loc.already_confirmed);
+                            if loc.viol_count > before && loc.violations.len() > recorded && confirmations < 8 && !skip_probe {
                                 confirmations += 1;
                                 let key = loc.violations[recorded].key.clone();
                                 for _ in 0..2 {
